@@ -642,6 +642,23 @@ Inductive event :=
 Definition lazy_fold (h : fold_hdr) : bool :=
   existsb (fun pf => match pf_arg pf with Some (AVar _ _) => true | _ => false end) (fo_post h).
 
+(* Exec.v's collect_fold_elements with Iterator::take(m) written by recursion on the list, so that
+   a 2^63 limit never becomes a unary number (HintsProofs.collect_fold_elements_z_spec: it is
+   `firstn (Z.to_nat m)`) *)
+Fixpoint take_zl {A} (m : Z) (l : list A) : list A :=
+  match l with
+  | [] => []
+  | x :: r => if (0 <? m)%Z then x :: take_zl (m - 1) r else []
+  end.
+Definition collect_fold_elements_z {A} (elems : list A) (maxl minl : option Z) : option (list A) :=
+  match maxl with
+  | Some m => if Z.ltb m (Z.of_nat (List.length elems)) then None else Some elems
+  | None => match minl with
+            | Some m => Some (take_zl m elems)
+            | None => Some elems
+            end
+  end.
+
 Section Trace.
   Variable re_match : string -> string -> option bool.
   Variable g : graph.
@@ -704,6 +721,99 @@ Section Trace.
     do out <- enter_vertex re_match g args vs ss to (fst r1);
     Ok (out, snd r1 ++ filter_requests vs to).
 
+  (* compute_fold for one fold of a component; `sub_trace lz' cs'` runs the fold's component *)
+  Definition trace_fold (lz : bool) (vs : list ir_vertex) (ss : list step) (h : fold_hdr) (sub : ir_component)
+             (sub_trace : bool -> list ctx -> tres (list ctx)) (cs : list ctx) : tres (list ctx) :=
+    do from <- vertex_of vs (fo_from h);
+    let lz' := lz || lazy_fold h in
+    (* imported tags *)
+    do cs1 <- foldM (fun cs t =>
+               match t with
+               | FRContext cf =>
+                   do fvtx <- vertex_of vs (cf_vid cf);
+                   mapM (fun c =>
+                           do c1 <- activate_vertex c (cf_vid cf);
+                           let value := resolve_prop g (v_type fvtx) (cf_name cf) c1 in
+                           do ov <- vertex_at c1 (cf_vid cf);
+                           let tv := match ov with Some _ => TSome value | None => TNone end in
+                           Ok (set_imported c1 (insert_ref t tv (imported_tags c1)))) cs
+               | FRFold ff =>
+                   mapM (fun c => do tv <- fold_count_value (ff_eid ff) c;
+                                  Ok (set_imported c (insert_ref t tv (imported_tags c)))) cs
+               end) (fo_imported h) cs;
+    let ev_imports := map (fun r => EProp (fst r) (snd r)) (import_requests h) in
+    do cs2 <- mapM (fun c => activate_vertex c (fo_from h)) cs1;
+    let ev_nbr := nbr_event lz (fo_from h) (fo_to h) (fo_eid h) 1 cs2 in
+    do maxl <- get_max_fold_count_limit args h;
+    do minl0 <- get_min_fold_count_limit args h;
+    let minl := match minl0 with
+                | Some m =>
+                    if (match c_outputs sub with [] => true | _ => false end)
+                       && (match fo_fsout h with [] => true | _ => false end)
+                       && negb (has_tag_on_fold_count vs h)
+                    then Some m else None
+                | None => None
+                end in
+    do r3 <- foldM (fun acc c =>
+               let ns := resolve_nbrs g (v_type from) (fo_name h) (fo_params h) c in
+               let imported := imported_tags c in
+               do computed <- sub_trace lz' (map (fun n => set_imported (ctx_new (Some n)) imported) ns);
+               do ov <- vertex_at c (fo_from h);
+               match (match ov with
+                      | Some _ => match collect_fold_elements_z (fst computed) maxl minl with
+                                  | Some els => Some (Some els)
+                                  | None => None
+                                  end
+                      | None => Some None
+                      end) with
+               | None => Ok (fst acc, snd acc ++ snd computed)
+               | Some fold_elements =>
+                   if has_key_N (fo_eid h) (folded_contexts c)
+                   then Panic "execution.rs:compute_fold folded_contexts.insert_or_error"
+                   else
+                     let c1 := set_folded_contexts c (folded_contexts c ++ [(fo_eid h, fold_elements)]) in
+                     let imp := fold_left (fun m t => match remove_ref t m with Some m' => m' | None => m end)
+                                          (fo_imported h) (imported_tags c1) in
+                     Ok (fst acc ++ [set_imported c1 imp], snd acc ++ snd computed)
+               end) cs2 ([], []);
+    let cs3 := fst r3 in
+    (* post-fold filters *)
+    do cs4 <- foldM (fun cs pf =>
+               do cs' <- mapM (fun c => do tv <- fold_count_value (fo_eid h) c;
+                                        match tv with
+                                        | TSome v => Ok (push_value c v)
+                                        | TNone => Ok (push_value c Null)
+                                        end) cs;
+               filter_stage re_match g args vs ss (fo_from h) (v_type from) (pf_op pf) (pf_arg pf) cs')
+             (fo_post h) cs3;
+    let ev_post := flat_map (fun pf => map (fun r => EProp (fst r) (snd r))
+                                           (if opk_unary (pf_op pf) then [] else tag_request vs (pf_arg pf)))
+                            (fo_post h) in
+    do cs5 <- mapM (fold_outputs_one g h sub) cs4;
+    (* the output loop of compute_fold runs per context whose fold is non-empty *)
+    let ev_outs :=
+      if existsb (fun c => match lookup_N (fo_eid h) (folded_contexts c) with
+                           | Some (Some (_ :: _)) => true
+                           | _ => false
+                           end) cs4
+      then map (fun o => EProp (cf_vid (snd o)) (cf_name (snd o))) (c_outputs sub)
+      else [] in
+    Ok (cs5, ev_imports ++ [ev_nbr] ++ snd r3 ++ ev_post ++ ev_outs).
+
+  Section TraceGo.
+    Variable lz : bool.
+    Variable vs : list ir_vertex.
+    Variable ss : list step.
+    Variable sub_trace_of : ir_component -> bool -> list ctx -> tres (list ctx).
+    Fixpoint trace_go (todo : list step) (cs : list ctx) (log : list event) {struct todo} : tres (list ctx) :=
+      match todo with
+      | [] => Ok (cs, log)
+      | SEdge e :: r => do x <- trace_edge lz vs ss e cs; trace_go r (fst x) (log ++ snd x)
+      | SFold h sub :: r =>
+          do x <- trace_fold lz vs ss h sub (sub_trace_of sub) cs; trace_go r (fst x) (log ++ snd x)
+      end.
+  End TraceGo.
+
   Fixpoint trace_component (lz : bool) (c : ir_component) (cs : list ctx) {struct c} : tres (list ctx) :=
     match c with
     | mkComp root vs ss outs =>
@@ -716,82 +826,8 @@ Section Trace.
                do x <- trace_edge lz vs ss e cs;
                go r (fst x) (log ++ snd x)
            | SFold h sub :: r =>
-               do from <- vertex_of vs (fo_from h);
-               let lz' := lz || lazy_fold h in
-               (* imported tags *)
-               do cs1 <- foldM (fun cs t =>
-                          match t with
-                          | FRContext cf =>
-                              do fvtx <- vertex_of vs (cf_vid cf);
-                              mapM (fun c =>
-                                      do c1 <- activate_vertex c (cf_vid cf);
-                                      let value := resolve_prop g (v_type fvtx) (cf_name cf) c1 in
-                                      do ov <- vertex_at c1 (cf_vid cf);
-                                      let tv := match ov with Some _ => TSome value | None => TNone end in
-                                      Ok (set_imported c1 (insert_ref t tv (imported_tags c1)))) cs
-                          | FRFold ff =>
-                              mapM (fun c => do tv <- fold_count_value (ff_eid ff) c;
-                                             Ok (set_imported c (insert_ref t tv (imported_tags c)))) cs
-                          end) (fo_imported h) cs;
-               let ev_imports := map (fun r => EProp (fst r) (snd r)) (import_requests h) in
-               do cs2 <- mapM (fun c => activate_vertex c (fo_from h)) cs1;
-               let ev_nbr := nbr_event lz (fo_from h) (fo_to h) (fo_eid h) 1 cs2 in
-               do maxl <- get_max_fold_count_limit args h;
-               do minl0 <- get_min_fold_count_limit args h;
-               let minl := match minl0 with
-                           | Some m =>
-                               if (match c_outputs sub with [] => true | _ => false end)
-                                  && (match fo_fsout h with [] => true | _ => false end)
-                                  && negb (has_tag_on_fold_count vs h)
-                               then Some m else None
-                           | None => None
-                           end in
-               do r3 <- foldM (fun acc c =>
-                          let ns := resolve_nbrs g (v_type from) (fo_name h) (fo_params h) c in
-                          let imported := imported_tags c in
-                          do computed <- trace_component lz' sub
-                                           (map (fun n => set_imported (ctx_new (Some n)) imported) ns);
-                          do ov <- vertex_at c (fo_from h);
-                          match (match ov with
-                                 | Some _ => match collect_fold_elements (fst computed) maxl minl with
-                                             | Some els => Some (Some els)
-                                             | None => None
-                                             end
-                                 | None => Some None
-                                 end) with
-                          | None => Ok (fst acc, snd acc ++ snd computed)
-                          | Some fold_elements =>
-                              if has_key_N (fo_eid h) (folded_contexts c)
-                              then Panic "execution.rs:compute_fold folded_contexts.insert_or_error"
-                              else
-                                let c1 := set_folded_contexts c (folded_contexts c ++ [(fo_eid h, fold_elements)]) in
-                                let imp := fold_left (fun m t => match remove_ref t m with Some m' => m' | None => m end)
-                                                     (fo_imported h) (imported_tags c1) in
-                                Ok (fst acc ++ [set_imported c1 imp], snd acc ++ snd computed)
-                          end) cs2 ([], []);
-               let cs3 := fst r3 in
-               (* post-fold filters *)
-               do cs4 <- foldM (fun cs pf =>
-                          do cs' <- mapM (fun c => do tv <- fold_count_value (fo_eid h) c;
-                                                   match tv with
-                                                   | TSome v => Ok (push_value c v)
-                                                   | TNone => Ok (push_value c Null)
-                                                   end) cs;
-                          filter_stage re_match g args vs ss (fo_from h) (v_type from) (pf_op pf) (pf_arg pf) cs')
-                        (fo_post h) cs3;
-               let ev_post := flat_map (fun pf => map (fun r => EProp (fst r) (snd r))
-                                                      (if opk_unary (pf_op pf) then [] else tag_request vs (pf_arg pf)))
-                                       (fo_post h) in
-               do cs5 <- mapM (fold_outputs_one g h sub) cs4;
-               (* the output loop of compute_fold runs per context whose fold is non-empty *)
-               let ev_outs :=
-                 if existsb (fun c => match lookup_N (fo_eid h) (folded_contexts c) with
-                                      | Some (Some (_ :: _)) => true
-                                      | _ => false
-                                      end) cs4
-                 then map (fun o => EProp (cf_vid (snd o)) (cf_name (snd o))) (c_outputs sub)
-                 else [] in
-               go r cs5 (log ++ ev_imports ++ [ev_nbr] ++ snd r3 ++ ev_post ++ ev_outs)
+               do x <- trace_fold lz vs ss h sub (fun lz' cs' => trace_component lz' sub cs') cs;
+               go r (fst x) (log ++ snd x)
            end) ss cs0 (filter_requests vs rootv)
     end.
 
